@@ -12,6 +12,7 @@ class Result:
         self.corr_breaks = []          # (stream, line, op, impl, model)
         self.violations = []           # judged on the implementation: dict(msg, replay)
         self.known = []                # known findings seen
+        self.stale = []                # open findings whose witness no longer fails
         self.cov = dict(evaluations=0, distinct_nontrivial=0, traces_validated_against_impl=0, samples=[],
                         streams={}, rule="")
         self.obligations = 0
@@ -274,9 +275,53 @@ def facts_and_conc(res, spec):
                 pass
 
 
+def run_corpus(res, spec):
+    """the corpus runs first: witnesses of the open findings of this property (must still fail: KNOWN-FINDING) and of the
+    repaired ones (must pass: an ordinary violation otherwise); model and implementation must agree on all of them"""
+    kf = C.known_findings()
+    pid = res.pid
+    res.cov["corpus"] = []
+    for status in ("open", "fixed"):
+        for e in kf.get(status, []):
+            if pid not in e["properties"]:
+                continue
+            path = os.path.join(C.VERIF, e["witness"])
+            stream, mode = C.witness_kind(path)
+            wd = os.path.join(res.workdir, "corpus-" + e["id"])
+            ok, log, okd, logd, _ = C.run_stream_cached(stream, mode, res.seed, res.tier, wd, extra=["-replay", path])
+            if not (ok and okd):
+                res.corr_breaks.append(("corpus:" + e["id"], -1, "witness replay failed", (log or logd)[-800:], ""))
+                continue
+            ops = C.op_lines(os.path.join(wd, "ops.txt"))
+            impl = [l for l in C.read_lines(os.path.join(wd, "impl.txt")) if l != ""]
+            model = [l for l in C.read_lines(os.path.join(wd, "model.txt")) if l != ""]
+            d = first_diff(impl, model)
+            if d is not None:
+                rp = write_replay(res, "corpus-" + e["id"], ops, impl, model, min(d, len(ops) - 1), "model and implementation differ on a corpus witness")
+                res.corr_breaks.append(("corpus:" + e["id"], d, ops[d] if d < len(ops) else "<eof>", impl[d] if d < len(impl) else "<eof>", model[d] if d < len(model) else "<eof>", rp))
+            if mode == "hist":
+                want = spec["judge"][1] if spec["judge"][0] == "hist" and spec["judge"][1] else {pid}
+                strict, _ = judge_hist.judge(ops, impl, want | {pid}, ignore_envelope=True)
+                viol = [v for v in strict if v["prop"] in (want | {pid})]
+            else:
+                viol = [dict(line=v["line"], msg=v["msg"]) for v in judge_pool.judge(ops, impl, {pid})]
+            res.cov["evaluations"] += 1
+            res.cov["corpus"].append(dict(id=e["id"], status=status, fails=bool(viol)))
+            if status == "open":
+                if viol:
+                    res.known.append(f"{e['id']}: {e['what_fails']} [witness {e['witness']}: {viol[0]['msg'][:160]}]")
+                else:
+                    res.stale.append(e["id"])
+            else:
+                for v in viol[:2]:
+                    rp = write_replay(res, "corpus-" + e["id"], ops, impl, model, v["line"], v["msg"])
+                    res.violations.append(dict(msg=f"repaired finding {e['id']} is back: {v['msg']}", replay=rp))
+
+
 def correspond(res, spec):
     if getattr(res, "build_failed", False):
         return
+    run_corpus(res, spec)
     if spec["judge"][0] in ("facts", "conc"):
         facts_and_conc(res, spec)
         return
@@ -394,6 +439,8 @@ def finish(res, spec, wall):
     kf = C.known_findings()
     for k in res.known:
         lines.append(f"KNOWN-FINDING: property={pid} {k}")
+    for k in res.stale:
+        lines.append(f"note: open finding {k} no longer reproduces on this tree (stale entry in known-findings.json)")
     if res.violations:
         code = 1
         v = res.violations[0]
